@@ -828,7 +828,10 @@ Patch Parser::parse_context_patch(Patch& patch)
         get_line(line);
         m_file.seekg(pos);
 
-        if (!starts_with(line, "***"))
+        // Another hunk of this patch starts with a line of asterisks, or directly with its old file range
+        // if that line was already consumed. Anything else, such as the '*** name' header of the next
+        // file, is not part of this patch.
+        if (!starts_with(line, "***************") && !(starts_with(line, "*** ") && ends_with(line, " ****")))
             return patch;
     }
 }
